@@ -4,6 +4,7 @@ the coders in golem/serializers (opt_history_serialization, parent_operator_seri
 serializer._get_class with the legacy path tables).
 Model: coq/theories/Serial/HistoryCodec.v (agree / holds_b / guard_b, dump_agree / dump_holds_b,
 tables_agree / resolve_agree)."""
+import collections
 import importlib
 import json
 import os
@@ -240,10 +241,17 @@ class Tok:
 # ----------------------------------------------------------------------------------------
 # export of an in-memory history (by object identity) and parsing of a saved one
 # ----------------------------------------------------------------------------------------
+GIVEN_SNAPS = {}    # id(history) -> (history, [[individual...]...]): the archive snapshots as handed to add_to_archive_history
+
+
 def export_hist(history, tok):
     """-> dict(heap=[ind...], obj, gens, snaps, tuning, dir); objects numbered parents first;
     identity = id(); raises ShapeError when something is not what the public types promise"""
     order, index = [], {}
+    # a snapshot handed over as a tuple / one-shot iterator / other sequence denotes the list of its elements: for
+    # such recipes the recorded side of the observation is the materialised argument, not the stored container
+    given = GIVEN_SNAPS.get(id(history))
+    archives = given[1] if given is not None and given[0] is history else history.archive_history
 
     def visit(root):
         if id(root) in index:
@@ -274,7 +282,7 @@ def export_hist(history, tok):
     for g in history.generations:
         for i in g:
             visit(i)
-    for a in history.archive_history:
+    for a in archives:
         for i in a:
             visit(i)
     # cyclic lineage (possible only for hand-made JSON): index may still be None for objects on a cycle
@@ -287,7 +295,7 @@ def export_hist(history, tok):
             raise TypeViolation('generation is %s, not a Generation' % type(g).__name__)
         gens.append({'num': g.generation_num, 'label': tok('label', g.label), 'meta': tok('gmeta', op_key(g.metadata)),
                      'members': [index[id(i)] for i in g]})
-    snaps = [[index[id(i)] for i in a] for a in history.archive_history]
+    snaps = [[index[id(i)] for i in a] for a in archives]
     o = history.objective
     if not isinstance(o, ObjectiveInfo):
         raise TypeViolation('objective is %s, not an ObjectiveInfo' % type(o).__name__)
@@ -925,6 +933,31 @@ def mk_operator(x):
     return x
 
 
+SNAP_KINDS = ['tuple', 'gen', 'iter', 'filter', 'map', 'userlist_mutated', 'list_mutated', 'deque_mutated']
+
+
+def hand_over_snapshot(h, members, kind):
+    """add_to_archive_history with the snapshot given as something else than a fresh list (same elements, same order);
+    the *_mutated kinds change the caller's own container afterwards: the recorded snapshot must not follow"""
+    if kind == 'tuple':
+        h.add_to_archive_history(tuple(members))
+    elif kind == 'gen':
+        h.add_to_archive_history(m for m in members)
+    elif kind == 'iter':
+        h.add_to_archive_history(iter(members))
+    elif kind == 'filter':
+        h.add_to_archive_history(filter(lambda m: True, members))
+    elif kind == 'map':
+        h.add_to_archive_history(map(lambda m: m, members))
+    elif kind in ('userlist_mutated', 'list_mutated', 'deque_mutated'):
+        box = {'userlist_mutated': collections.UserList, 'list_mutated': list, 'deque_mutated': collections.deque}[kind](members)
+        h.add_to_archive_history(box)
+        box.reverse()
+        box.clear()
+    else:
+        raise ValueError(kind)
+
+
 class Synth:
     """builds a history from a JSON-able recipe:
     inds: list of dict(parents=[idx...], op=type or None, graph seed, fitness, meta, ng preset)
@@ -962,6 +995,7 @@ class Synth:
         objective = ObjectiveInfo(multi, tuple(rc.get('metric_names', ())))
         h = OptHistory(objective, rc.get('save_dir')) if rc.get('objective', True) else OptHistory()
         steps = rc.get('steps')
+        given = []
         if steps is None:
             steps = [('g', i) for i in range(len(rc['gens']))] + [('s', i) for i in range(len(rc['snaps']))]
         for kind, i in steps:
@@ -983,7 +1017,15 @@ class Synth:
                             h.save_current_results(dump_dir)
                             collect_dumps(h, dump_dir, dumps, 'synthetic-redump', dump_limit, rc)
             else:
-                h.add_to_archive_history([inds[m] for m in rc['snaps'][i]])
+                members = [inds[m] for m in rc['snaps'][i]]
+                kind = (rc.get('snap_kinds') or [])[i:i + 1]
+                given.append(list(members))
+                if kind and kind[0] != 'list':
+                    hand_over_snapshot(h, members, kind[0])
+                else:
+                    h.add_to_archive_history(members)
+        if rc.get('snap_kinds'):
+            GIVEN_SNAPS[id(h)] = (h, given)
         if rc.get('tuning'):
             h.tuning_result = mk_graph(random.Random(5))
         return h
@@ -1084,6 +1126,13 @@ def fixed_recipes():
                         {'op': 'mutation', 'parents': [2]}],
                'gens': [{'members': [0]}], 'snaps': [[0, 3], [4, 3]]}))
     R.append(('only an archive, no generation', {'inds': [{}, {'op': 'mutation', 'parents': [0]}], 'gens': [], 'snaps': [[1]]}))
+    # archive snapshots handed over as other containers than a fresh list (round 8)
+    for kinds in (['tuple', 'gen', 'list'], ['filter', 'map', 'iter'], ['userlist_mutated', 'list_mutated', 'deque_mutated']):
+        R.append(('archive snapshots given as %s' % ' / '.join(kinds),
+                  {'inds': [{}, {}, {'op': 'crossover', 'parents': [0, 1]}, {'op': 'mutation', 'parents': [2], 'evaluated': False},
+                            {'op': 'mutation', 'parents': [3]}, {}],
+                   'gens': [{'members': [0, 1]}, {'members': [2, 4, 0]}], 'snaps': [[1, 0], [2, 3, 0], [4, 5]], 'snap_kinds': kinds,
+                   'steps': [('g', 0), ('s', 0), ('g', 1), ('s', 1), ('s', 2)]}))
     # outside the domain of the property (two objects carry one uid): correspondence only
     R.append(('two distinct individuals with one uid (out of domain)',
               {'inds': [{'uid': 'dup'}, {'uid': 'dup'}, {'op': 'mutation', 'parents': [0]}],
@@ -1131,9 +1180,13 @@ def random_recipe(rng):
         if rng.random() < 0.2:
             snaps[-1].append(rng.randrange(n))   # an archive member taken from anywhere (possibly in no generation)
     weights = list(rng.choice(WEIGHT_SETS)) if multi else None
-    return {'seed': rng.randrange(10 ** 6), 'multi': multi, 'weights': weights,
-            'metric_names': (['m%d' % i for i in range(len(weights))] if multi else rng.choice([[], ['q']])),
-            'inds': inds, 'gens': gens, 'snaps': snaps, 'tuning': rng.random() < 0.2}
+    rc = {'seed': rng.randrange(10 ** 6), 'multi': multi, 'weights': weights,
+          'metric_names': (['m%d' % i for i in range(len(weights))] if multi else rng.choice([[], ['q']])),
+          'inds': inds, 'gens': gens, 'snaps': snaps, 'tuning': rng.random() < 0.2}
+    r2 = random.Random(rc['seed'] + 17)    # (own stream: the recipes themselves stay what they were)
+    if r2.random() < 0.3:     # some snapshots handed over as a tuple / one-shot iterator / caller-owned container
+        rc['snap_kinds'] = [r2.choice(SNAP_KINDS) if r2.random() < 0.6 else 'list' for _ in snaps]
+    return rc
 
 
 # ----------------------------------------------------------------------------------------
